@@ -404,8 +404,26 @@ def r11_no_header_only_padding(ctx):
     ctx.floor("R05.11", "padding frames whose length is a saturating difference", n, 1)
 
 
+def r12_close_writes_nothing(ctx):
+    """Session::close only shuts the transport down: it never writes (whatever is still sitting in the first-packet buffer would
+    leave unshaped — at its natural size, outside the packet numbering)"""
+    body = co(ctx, "R05.12", S + "close")
+    if body is None:
+        return
+    ws = [c for c in body.calls() if (c.norm or "").endswith(("AsyncWriteExt::write_all", "AsyncWriteExt::write", "AsyncWriteExt::write_buf", "AsyncWriteExt::write_all_buf", "AsyncWriteExt::flush",
+                                                              "Session::write_frame", "Session::write_with_padding", "Session::write_control_frame", "Session::write_data_frame"))]
+    sh = calls_norm(body, "AsyncWriteExt::shutdown")
+    ctx.ob("R05.12", "close:no-transport-write", not ws and bool(sh), (ws[0] if ws else sh[0]).site if (ws or sh) else "",
+           "close() touches the writer only to shut it down" if not ws and sh else
+           "Session::close writes to the transport (`%s`): frames still waiting in the first-packet buffer leave without padding and without a packet index, so the first client packet has its natural size "
+           "(85 bytes for Settings+SYN) instead of the size line 1 prescribes" % (ws[0].norm.split("::")[-1] if ws else "no shutdown found"))
+
+
 def run(ctx):
     r11_no_header_only_padding(ctx)
+    r12_close_writes_nothing(ctx)
+    from . import C19 as _C19
+    _C19.r1_replaceable(ctx)     # the scheme shaping new sessions is the one pushed last (no early-out that leaves an older one in force)
     from . import C19
     C19.r2_new_sessions(ctx)   # the preamble (line 0) and the session (lines 1..) are given one and the same scheme object
     r10_scheme_parse(ctx)
